@@ -444,12 +444,20 @@ class RestAPI(object):
                 https://docs.aws.amazon.com/step-functions/latest/dg/cloudwatch-log-level.html
                 https://docs.aws.amazon.com/AmazonCloudWatch/latest/logs/iam-access-control-overview-cwl.html
                 """
-                logging_configuration = params.get("loggingConfiguration", {})
+                logging_configuration = params.get("loggingConfiguration")
+                if logging_configuration is None:
+                    logging_configuration = {}
+                if not isinstance(logging_configuration, dict):
+                    self.logger.error(
+                        "RestAPI CreateStateMachine: Invalid logging configuration for State Machine '{}'.".format(name)
+                    )
+                    return aws_error("InvalidLoggingConfiguration"), 400
                 # Explicitly set default to OFF if not present in request.
                 logging_level = logging_configuration.get("level", "OFF")
                 logging_configuration["level"] = logging_level
 
-                if logging_level not in {"OFF", "ALL", "ERROR", "FATAL"}:
+                if (not isinstance(logging_level, str) or
+                    logging_level not in {"OFF", "ALL", "ERROR", "FATAL"}):
                     self.logger.error(
                         "RestAPI CreateStateMachine: Invalid logging configuration for State Machine '{}'.".format(name)
                     )
@@ -743,11 +751,17 @@ class RestAPI(object):
                 """
                 logging_configuration = params.get("loggingConfiguration", {})
                 if logging_configuration:
+                    if not isinstance(logging_configuration, dict):
+                        self.logger.error(
+                            "RestAPI UpdateStateMachine: Invalid logging configuration for State Machine '{}'.".format(state_machine_arn)
+                        )
+                        return aws_error("InvalidLoggingConfiguration"), 400
                     # Explicitly set default to OFF if not present in request.
                     logging_level = logging_configuration.get("level", "OFF")
                     logging_configuration["level"] = logging_level
 
-                    if logging_level not in {"OFF", "ALL", "ERROR", "FATAL"}:
+                    if (not isinstance(logging_level, str) or
+                        logging_level not in {"OFF", "ALL", "ERROR", "FATAL"}):
                         self.logger.error(
                             "RestAPI UpdateStateMachine: Invalid logging configuration for State Machine '{}'.".format(state_machine_arn)
                         )
@@ -1182,7 +1196,7 @@ class RestAPI(object):
                     return aws_error("StateMachineDoesNotExist"), 400
 
                 status_filter = params.get("statusFilter")
-                if status_filter and status_filter not in {
+                if not isinstance(status_filter, str) or status_filter not in {
                     "RUNNING",
                     "SUCCEEDED",
                     "FAILED",
